@@ -252,6 +252,7 @@ def reader_paths(ctx: Ctx, fn: Func, io: str) -> tuple[list[tuple[ast.Call, set[
     env: dict[str, set[tuple[int, Path]]] = {}
     notes: list[str] = []
     ctor_cache: dict = {}
+    _inlining: set[int] = set()
 
     def ctor_of(call: ast.Call) -> Func | None:
         tg, how = ctx.R.callees(call, fn, count=False)
@@ -276,6 +277,12 @@ def reader_paths(ctx: Ctx, fn: Func, io: str) -> tuple[list[tuple[ast.Call, set[
         if not isinstance(call, ast.Call):
             return {}
         c = ctor_of(call)
+        if c is None:
+            from .kit import inline_simple_call
+
+            inl = inline_simple_call(ctx.R, call, fn)  # construction moved into a one-line helper
+            if isinstance(inl, ast.Call) and ctor_of(inl) is not None:
+                call, c = inl, ctor_of(inl)
         if c is None:
             return {}
         pf = ctor_param_fields(ctx, c)
@@ -320,6 +327,17 @@ def reader_paths(ctx: Ctx, fn: Func, io: str) -> tuple[list[tuple[ast.Call, set[
                 for a in e.args:
                     out |= {(k, ("#len",)) for k, _ in ev(a)}
                 return out
+            # a construction moved into a one-line helper (`return Ctor(name, savings, ...)`): seen through
+            if id(e) not in _inlining:
+                from .kit import inline_simple_call
+
+                inl = inline_simple_call(ctx.R, e, fn)
+                if isinstance(inl, ast.Call) and ctor_of(inl) is not None:
+                    _inlining.add(id(e))
+                    try:
+                        return ev(inl)
+                    finally:
+                        _inlining.discard(id(e))
             if isinstance(e.func, ast.Attribute):
                 out |= ev(e.func.value)
             for a in e.args:
